@@ -18,6 +18,8 @@
 #include "muduo/base/Thread.h"
 #include "muduo/base/CurrentThread.h"
 #include "common.h"
+#include <condition_variable>
+#include <mutex>
 
 #include <errno.h>
 #include <inttypes.h>
@@ -280,13 +282,45 @@ static void runThread(const std::function<void()>& f, Result* res) {
   t.join();
 }
 
+// `worker`: ONE muduo::Thread that lives for the whole run and executes every `worker` request: what a thread caches
+// between two log statements (the formatted second, the zone generation, its tid text) survives from one request to
+// the next, while the main thread changes the global configuration (`setzone`, `setlevel`) in between.
+// (on the heap and never destroyed: the worker still waits on the condition variable when main returns)
+static std::mutex& g_wm = *new std::mutex;
+static std::condition_variable& g_wcv = *new std::condition_variable;
+static const std::function<void()>* g_wjob = NULL;
+static Result* g_wres = NULL;
+static bool g_wdone = false;
+static muduo::Thread* g_worker = NULL;
+static void workerMain() {
+  for (;;) {
+    std::unique_lock<std::mutex> l(g_wm);
+    g_wcv.wait(l, [] { return g_wjob != NULL; });
+    const std::function<void()>* f = g_wjob;
+    Result* res = g_wres;
+    l.unlock();
+    runHere(*f, res);
+    l.lock();
+    g_wjob = NULL; g_wdone = true;
+    g_wcv.notify_all();
+  }
+}
+static void runWorker(const std::function<void()>& f, Result* res) {
+  if (!g_worker) { g_worker = new muduo::Thread(workerMain, "verifw"); g_worker->start(); }
+  std::unique_lock<std::mutex> l(g_wm);
+  g_wjob = &f; g_wres = res; g_wdone = false;
+  g_wcv.notify_all();
+  g_wcv.wait(l, [] { return g_wdone; });
+}
+
 static bool isWhere(const std::string& w) {
-  return w == "main" || w == "thread" || w == "fork" || w == "raw0" || w == "raw1";
+  return w == "main" || w == "thread" || w == "fork" || w == "raw0" || w == "raw1" || w == "worker";
 }
 
 static void run(const std::string& where, const std::function<void()>& f, Result* res) {
   if (where == "main") runHere(f, res);
   else if (where == "thread") runThread(f, res);
+  else if (where == "worker") runWorker(f, res);
   else if (where == "raw0") runForked(f, res, kRawFirst);
   else if (where == "raw1") runForked(f, res, kRawAfterTid);
   else runForked(f, res);
